@@ -47,6 +47,13 @@ def main(argv):
             selftest.run_selftest(pid, mod, run)
         return run.finish()
     except AnalysisError as e:
+        # an anchored construct is gone.  Before giving up, look for the plain reason with the generic rules (a deleted defining statement
+        # leaves a name unbound, ...): a positive diagnosis in the files of the property is a violation, not an analysis failure.
+        try:
+            if _safety_net(run, pid, str(e)):
+                return run.finish()
+        except Exception:
+            traceback.print_exc()
         print('ANALYSIS-ERROR property=%s %s' % (pid, e))
         write_error_evidence(pid, tier, str(e))
         return 2
@@ -55,6 +62,29 @@ def main(argv):
         print('ANALYSIS-ERROR property=%s %s: %s' % (pid, type(e).__name__, e))
         write_error_evidence(pid, tier, '%s: %s' % (type(e).__name__, e))
         return 2
+
+
+def _safety_net(run, pid, why):
+    from .program import Program
+    from .cachekey import check_caches
+    from .report import load_known, REPO
+    files = sorted(f for f in run.files if os.path.exists(os.path.join(REPO, f)))
+    if not files:
+        return False
+    before = len(run.findings)
+    prog = Program()
+    prog.load_many(files)
+    mods = [m for m in prog.modules.values() if m.relpath in files]
+    check_caches(run, mods, pid + '-K', prog=prog)
+    known = {k['key'] for k in load_known() if 'key' in k}
+    fresh = [f for f in run.findings if f['key'] not in known]
+    if not fresh:
+        del run.findings[before:]
+        return False
+    run.notes.append('NOTE: the anchored analysis stopped (%s); the findings reported are those of the rules that ran and of the generic rules '
+                     'applied to the files of the property' % why)
+    print('NOTE property=%s anchored analysis stopped: %s' % (pid, why))
+    return True
 
 
 if __name__ == '__main__':
